@@ -574,6 +574,14 @@ def gen_walk(rng, v, o, maxsteps=4, allow_filter=True, depth=0, first=True):
                 elif form < 0.7:
                     q.append(["keysfilter", "==", ["lit", {"$re": "^" + k0[:1]}]])
                     v = rng.choice([v[k] for k in ks if k.startswith(k0[:1])])
+                elif form < 0.7 and o.interp and getattr(o, "_strvars", None):
+                    # the key name(s) to keep come from a variable
+                    name, keys = rng.choice(o._strvars[:2])
+                    q.append(["keysfilter", "==" if name == "kv0" else "in", ["var", name]])
+                    hit = [k for k in keys if k in v]
+                    if not hit:
+                        return q, None
+                    v = v[rng.choice(hit)]
                 elif form < 0.8:
                     q.append(["keysfilter", "in", ["lit", [k0, "nokey"]]])
                     v = v[k0]
@@ -808,6 +816,7 @@ def gen_file(rng, doc, o=None):
     order = list(range(nrules))
     rng.shuffle(order)          # rule i may reference rules later in `order` (acyclic)
     rank = {idx: pos for pos, idx in enumerate(order)}
+    o._strvars = None
     flets, fvars = gen_lets(rng, doc, o, 0, "f", {})
     if o.interp:
         # file-level variables that name keys: a string literal, a list of strings, and (sometimes) a query that selects strings
@@ -818,6 +827,15 @@ def gen_file(rng, doc, o=None):
         ks = rng.sample(dkeys, min(len(dkeys), rng.randint(1, 2))) + (["zz_nokey"] if rng.random() < 0.3 else [])
         flets.append(["kv1", ["lit", ks]])
         strvars.append(("kv1", ks))
+        if rng.random() < 0.5:
+            # keys taken from the document itself: whatever a random path selects (strings name keys, an unresolved entry stays unresolved,
+            # any other value is an error by the documentation)
+            o._strvars = None          # no interpolation inside the definition itself
+            q2, v2 = gen_walk(rng, doc, o, 3, allow_filter=False)
+            if q2 and q2[0][0] == "key":
+                flets.append(["kv2", ["query", q2]])
+                vals2 = v2 if isinstance(v2, list) else [v2]
+                strvars.append(("kv2", [x for x in vals2 if isinstance(x, str)]))
         o._strvars = strvars
     prules = []
     rules = []
